@@ -782,7 +782,8 @@ class Engine:
             raise Unsupported("keyword arguments in call to %s" % callee.name)
         if len(node.args) != len(params):
             # arity obligation: reported as a refuted safety VC
-            self.emit("safety.arity(%s)@L%s" % (callee.name, node.lineno), "safety", st, z3.BoolVal(False), node.lineno,
+            self.emit("%s.safety.arity(%s)@+%s" % (self.fn_key.split("::")[-1], callee.name,
+                                                   node.lineno - self.fndef.lineno), "safety", st, z3.BoolVal(False), node.lineno,
                       guard, note="call passes %d arguments, %s takes %d" % (len(node.args), callee.name, len(params)))
             raise Unsupported("arity mismatch")
         args = [self.ev(a, st, guard) for a in node.args]
@@ -797,7 +798,8 @@ class Engine:
             cst.env[g] = self.evc(hint, st, guard)
         for cname, src in callee.requires.items():
             goal = to_bool(self.evc(src, cst, guard))
-            self.emit("call.%s.pre.%s@L%s" % (callee.name, cname, node.lineno), "precondition", st, goal, node.lineno,
+            self.emit("%s.call.%s.pre.%s@+%s" % (self.fn_key.split("::")[-1], callee.name, cname,
+                                                  node.lineno - self.fndef.lineno), "precondition", st, goal, node.lineno,
                       guard, note=src)
         # havoc what the callee may modify
         pre = State(dict(cst.env), dict(st.heap), list(st.pc), None)
@@ -995,7 +997,7 @@ class Engine:
 
     def st_Assert(self, s, st):
         c = to_bool(self.ev(s.test, st))
-        self.emit("assert@L%s" % s.lineno, "assert", st, c, s.lineno)
+        self.emit("%s.assert@+%s" % (self.fn_key.split("::")[-1], s.lineno - self.fndef.lineno), "assert", st, c, s.lineno)
         st.pc.append(c)
         return [("normal", st, None)]
 
